@@ -135,6 +135,7 @@ type runResult struct {
 	setPairs   map[string]bool
 	consumed   [3]int
 	pointHit   []uint32
+	Story      []string   // human-readable schedule of the run (replay mode)
 	raceViol   *Violation // kept apart: reported after the deterministic oracles
 	vault      []vaultEntry
 	errs       []errEntry
@@ -815,6 +816,7 @@ func runPlan(p *Plan, trace bool, collectCover bool) *runResult {
 			}
 			for oi, op := range ops {
 				rt.SchedPoint('o', oi)
+				sim.Note("op", tc.id, oi)
 				x.execOp(tc, oi, op)
 			}
 		})
@@ -917,5 +919,75 @@ func runPlan(p *Plan, trace bool, collectCover bool) *runResult {
 			}
 		}
 	}
+	if trace {
+		res.Story = story(p, sim.Trace, res)
+	}
 	return res
+}
+
+// story renders the executed schedule of a (small) run: which task started
+// which operation, where it was preempted, what the pool did, and what each
+// operation returned.
+func story(p *Plan, tr []rt.TraceEv, res *runResult) []string {
+	results := map[[2]int]string{}
+	for _, r := range res.recs {
+		results[[2]int{r.task, r.idx}] = r.res
+	}
+	var out []string
+	for _, e := range tr {
+		switch e.Kind {
+		case "op":
+			if e.A < len(p.Tasks) && e.B < len(p.Tasks[e.A]) {
+				op := p.Tasks[e.A][e.B]
+				line := fmt.Sprintf("task %d op %d: %s", e.A, e.B, op.K)
+				if op.V != 0 {
+					line += fmt.Sprintf(" v%d", op.V)
+				}
+				if op.C >= 0 {
+					line += fmt.Sprintf(" cell %d", op.C)
+				}
+				if op.D >= 0 {
+					line += fmt.Sprintf(" -> cell %d", op.D)
+				}
+				if op.S != "" || op.S2 != "" {
+					line += fmt.Sprintf(" %q %q", op.S, op.S2)
+				}
+				if r, ok := results[[2]int{e.A, e.B}]; ok {
+					line += "  => " + trunc(r)
+				}
+				out = append(out, line)
+			}
+		case "pre":
+			site := "?"
+			if e.B < len(pointSites) {
+				site = pointSites[e.B]
+			}
+			out = append(out, fmt.Sprintf("  task %d preempted before %s", e.A, site))
+		case "sw":
+			out = append(out, fmt.Sprintf("  switch: task %d -> task %d", e.A, e.B))
+		case "gm":
+			out = append(out, fmt.Sprintf("  task %d: pool Get misses (pool empty) -> New", e.A))
+		case "gf":
+			out = append(out, fmt.Sprintf("  task %d: pool Get misses (injected) -> New", e.A))
+		case "gc":
+			out = append(out, fmt.Sprintf("  task %d: pools cleared (GC), Get misses -> New", e.A))
+		case "gh":
+			out = append(out, fmt.Sprintf("  task %d: pool Get returns idle item #%d", e.A, e.B))
+		case "pk":
+			out = append(out, fmt.Sprintf("  task %d: pool Put kept (%d idle)", e.A, e.B))
+		case "pd":
+			out = append(out, fmt.Sprintf("  task %d: pool Put dropped", e.A))
+		case "lb":
+			out = append(out, fmt.Sprintf("  task %d blocks on lock %d", e.A, e.B))
+		case "go":
+			out = append(out, fmt.Sprintf("  task %d starts goroutine (task %d)", e.A, e.B))
+		case "exit":
+			out = append(out, fmt.Sprintf("  task %d done", e.A))
+		}
+		if len(out) > 400 {
+			out = append(out, "  ...")
+			break
+		}
+	}
+	return out
 }
